@@ -191,9 +191,13 @@ def check_case(case):
                         r.run_cases([dict(zip(names, chosen[-1]))],
                                     combos={"z": [7, 5]}, verbosity=0,
                                     shuffle=2)
-                ds = r.run_cases([tuple(c) for c in chosen],
+                # (keyrot 2: the names given for this run, in the opposite
+                # order to the stored ones - a bare name if there is one only)
+                rev = case["keyrot"] == 2 and len(names) >= 2
+                ds = r.run_cases([tuple(c[::-1] if rev else c)
+                                  for c in chosen],
                                  fn_args=(names[0] if len(names) == 1
-                                          else names)  # (a bare name)
+                                          else names[::-1])
                                  if case["keyrot"] == 2
                                  else None, verbosity=0,
                                  shuffle=case["shuffle"],
